@@ -125,7 +125,7 @@ class Gen:
                 opts += ["add", "ifexp", "tupidx", "dictattr", "count", "first", "called", "helper",
                          "firstattr", "firstidx", "method"]
         elif T == "bool":
-            opts += ["cmp", "cmp", "and"] if d > 0 else ["cmp0"]
+            opts += ["cmp", "cmp", "and", "not", "true"] if d > 0 else ["cmp0", "cmp0", "cmp0", "true"]
         elif T[0] == "seq":
             if d > 0:
                 opts += ["select", "where", "selectmany"]
@@ -190,13 +190,22 @@ class Gen:
             return str(r.randint(0, 5))
         if o == "add":
             a, b = E("int"), E("int")
-            return None if None in (a, b) else f"({a} {r.choice('+-*')} {b})"
+            if None in (a, b):
+                return None
+            if r.random() < 0.1:
+                return f"(-{a})"
+            return f"({a} {r.choice('+-*')} {b})"
         if o == "ifexp":
             c, a, b = E("bool"), E("int"), E("int")
             return None if None in (a, b, c) else f"({a} if {c} else {b})"
         if o in ("cmp", "cmp0"):
             a, b = self.expr("int", env, max(d - 1, 0)), self.expr("int", env, 0)
             return None if None in (a, b) else f"({a} {r.choice(['>', '<', '==', '>='])} {b})"
+        if o == "true":
+            return "True"
+        if o == "not":
+            a = E("bool")
+            return None if a is None else f"(not {a})"
         if o == "and":
             a, b = E("bool"), E("bool")
             return None if None in (a, b) else f"({a} {r.choice(['and', 'or'])} {b})"
